@@ -44,6 +44,9 @@ pub enum Sym {
     /// maintenance requirement)
     BorrowUsd(u16),
     WithdrawUsd(u16),
+    /// the account is moved to a new account of the same authority (PDA flavour / keypair flavour of the instruction)
+    TransferPda,
+    Transfer,
     WithdrawSmall,
     WithdrawMost,
     RepayAll,
@@ -169,6 +172,8 @@ pub fn build_ix(sc: &Sc, sym: Sym) -> Ix {
         Sym::BorrowHuge => ix::borrow(w.group, acct, auth, w.banks[1].key, ta(1), w.banks[1].token_program, 200_000_000_000, rem_both.clone()), // $5000
         Sym::BorrowUsd(x) => ix::borrow(w.group, acct, auth, w.banks[1].key, ta(1), w.banks[1].token_program, x as u64 * 40_000_000, rem_both.clone()),
         Sym::WithdrawUsd(x) => ix::withdraw(w.group, acct, auth, w.banks[0].key, ta(0), w.banks[0].token_program, x as u64 * 1_000_000, None, rem_both.clone()),
+        Sym::TransferPda => act::user_ix(w, s, &Action::TransferPda { u: 0 }, auth).unwrap(),
+        Sym::Transfer => act::user_ix(w, s, &Action::Transfer { u: 0 }, auth).unwrap(),
         Sym::WithdrawSmall => ix::withdraw(w.group, acct, auth, w.banks[0].key, ta(0), w.banks[0].token_program, 10_000_000, None, rem_both.clone()),
         Sym::WithdrawMost => ix::withdraw(w.group, acct, auth, w.banks[0].key, ta(0), w.banks[0].token_program, 990_000_000, None, rem_both.clone()),
         Sym::RepayAll => ix::repay(w.group, acct, auth, w.banks[1].key, ta(1), w.banks[1].token_program, 0, Some(true), vec![]),
@@ -243,7 +248,7 @@ pub struct Out {
 pub fn run_shape(sc: &Sc, st: St, list: &[Sym]) -> Out {
     let w = &sc.w;
     let ixs: Vec<Ix> = list.iter().map(|s| build_ix(sc, *s)).collect();
-    let signers = [w.users[0].authority, w.users[1].authority, w.roles.risk];
+    let signers = [w.users[0].authority, w.users[1].authority, w.roles.risk, w.payer, act::next_account_key(&w.users[0].account)];
     let mut post = sc.s.clone();
     let r = process_tx(&mut post, &Tx::new(ixs, &signers));
     if !r.ok() {
@@ -297,10 +302,16 @@ pub fn run_shape(sc: &Sc, st: St, list: &[Sym]) -> Out {
     // 4. health is enforced before the transaction ends
     let risky = list.iter().any(|s| matches!(s, Sym::BorrowSmall | Sym::BorrowHuge | Sym::WithdrawSmall | Sym::WithdrawMost | Sym::BorrowUsd(_) | Sym::WithdrawUsd(_)));
     if risky {
-        let h = health::health(&post, &acct, Req::Initial).unwrap();
-        if h.engine_err.is_none() && h.health() < -h.allow.clone() - rf::qfrac(1, 1_000_000) {
-            viol.push(("health_enforced_at_commit".into(), format!("committed with reference initial health {:.6} after borrowing / withdrawing", rf::qf64(&h.health()))));
+      // (the account itself and, if it was moved inside the transaction, the account its positions went to)
+      for k in [acct, act::next_account_key_pda(w, &acct, &w.users[0].authority), act::next_account_key(&acct)] {
+        if world::try_account(&post, &k).is_none() {
+            continue;
         }
+        let h = health::health(&post, &k, Req::Initial).unwrap();
+        if h.engine_err.is_none() && h.health() < -h.allow.clone() - rf::qfrac(1, 1_000_000) {
+            viol.push(("health_enforced_at_commit".into(), format!("committed with reference initial health {:.6} of account {} after borrowing / withdrawing", rf::qf64(&h.health()), world::label_of(&k))));
+        }
+      }
     }
     // a pre-state that already carries the marker is unreachable (that is what this property says); it
     // is only there to probe nesting, so only the nesting clause is judged from it
@@ -366,6 +377,7 @@ pub fn run(tier: Tier) -> Outcome {
         let mut side: Vec<Sym> = vec![Sym::Start(1), Sym::Start(2), Sym::Start(3), Sym::End, Sym::EndHeld, Sym::RepayAll];
         side.extend([300u16, 399, 401, 600, 817, 819].map(Sym::BorrowUsd));
         side.extend([240u16, 260, 600, 640].map(Sym::WithdrawUsd));
+        side.extend([Sym::TransferPda, Sym::Transfer]);
         let sc = scene(St::Normal);
         for lists in shape_chunks(&side, 4) {
             let results: Vec<Out> = lists.par_iter().map(|l| run_shape(&sc, St::Normal, l)).collect();
